@@ -39,7 +39,7 @@ theorem step_wsound (s : St) (p : Parked) (kn : Nat → Bool) (op : Op) (hop : o
   · exact h.adv (step_adv s p kn op hm h.zero)
   · -- a deletion or restoration of files
     have h0 : WSound { s with sto := [], mayStart := [], closedDl := [], mayStartI := false } :=
-      ⟨h.cfg, h.bad, h.ws⟩
+      ⟨h.cfg, h.bad, h.ws, h.pad⟩
     cases op with
     | mutate f how =>
       have hhow : ∀ off, how ≠ .corrupt off := by
@@ -66,6 +66,7 @@ theorem WSound.bits_of_files {s : St} (h : WSound s) (hfe : FilesExist s) :
     ∀ i, bitOf s.bf i = true → s.diskOKi i = true := by
   intro i hi
   rw [diskOKi_eq_true]
+  refine ⟨?_, h.pad i hi⟩
   intro x hx hxi
   have hmiss := h.ws i hi x hx hxi
   obtain ⟨sc, hsc, hfile, hdata⟩ := h.bad x hx
@@ -111,7 +112,7 @@ theorem InitLike.sound {s : St} (h : InitLike s) : Sound s :=
   ⟨h.cfg, h.bad, fun i hi => (by rw [h.bf] at hi; cases hi), fun i hi => (by rw [h.persisted] at hi; cases hi)⟩
 
 theorem InitLike.wsound {s : St} (h : InitLike s) : WSound s :=
-  ⟨h.cfg, h.bad, fun i hi => (by rw [h.bf] at hi; cases hi)⟩
+  ⟨h.cfg, h.bad, fun i hi => (by rw [h.bf] at hi; cases hi), fun i hi => (by rw [h.bf] at hi; cases hi)⟩
 
 theorem InitLike.life {s : St} (h : InitLike s) : Life s := by
   refine ⟨?_, ?_, h.leaked, ?_, ?_, ?_, ?_⟩
@@ -126,6 +127,91 @@ theorem InitLike.comp {s : St} (h : InitLike s) : CompInv s := by
   refine ⟨by rw [h.completeCClosed, h.completed], ?_, ?_⟩
   · rw [h.completed]; intro hh; cases hh
   · rw [h.errC]; intro hh; cases hh
+
+/-! ### A piece that can never be verified
+
+`Unver c i`: piece `i` is padding-only and the SHA-1 recorded for it is not the hash of zeroes.  The
+invariant below goes through **every** event, mutations of the files of any kind included: such a
+piece never gets a bit, in memory or in the resume record, and the torrent is never complete. -/
+
+structure PadInv (s : St) : Prop where
+  zero : Sound0 s
+  len : BfLen s
+  nobit : NoBit s
+  nobitP : ∀ i, Unver s.cfg i → bitOf s.persisted i = false
+  nc : (∃ i, Unver s.cfg i) → s.completed = false
+
+theorem PadInv.adv {s s' : St} (h : PadInv s) (a : Adv s s') : PadInv s' where
+  zero := h.zero.adv a
+  len := a.len h.len
+  nobit := a.noBit h.nobit
+  nobitP := fun i hi => by
+    have hi' : Unver s.cfg i := a.cfg ▸ hi
+    cases hb : bitOf s'.persisted i with
+    | false => rfl
+    | true =>
+      rcases a.per i hb with h' | h' | h'
+      · rw [h.nobitP i hi'] at h'; cases h'
+      · rw [h.nobit i hi'] at h'; cases h'
+      · have := padOK_of_diskOKi h'
+        rw [hi.2] at this; cases this
+  nc := fun hu => a.nc h.len h.nobit (by obtain ⟨i, hi⟩ := hu; exact ⟨i, a.cfg ▸ hi⟩)
+    (h.nc (by obtain ⟨i, hi⟩ := hu; exact ⟨i, a.cfg ▸ hi⟩))
+
+/-- What does not touch configuration, bitfield, record and completion keeps the invariant, given `Sound0`. -/
+theorem PadInv.of_eq {s s' : St} (h : PadInv s) (h0 : Sound0 s') (hc : s'.cfg = s.cfg) (hb : s'.bf = s.bf)
+    (hp : s'.persisted = s.persisted) (hcm : s'.completed = s.completed) : PadInv s' where
+  zero := h0
+  len := h.len.of_eq hc (Or.inl hb)
+  nobit := fun i hi => by rw [hb]; exact h.nobit i (hc ▸ hi)
+  nobitP := fun i hi => by rw [hp]; exact h.nobitP i (hc ▸ hi)
+  nc := fun hu => by rw [hcm]; exact h.nc (by obtain ⟨i, hi⟩ := hu; exact ⟨i, hc ▸ hi⟩)
+
+theorem handle_mutate_padInv (s : St) (p : Parked) (kn : Nat → Bool) (f : Option Nat) (how : Mut)
+    (h : PadInv s) : PadInv (handle s p kn (.mutate f how)).1.1 := by
+  unfold handle
+  dsimp only
+  split
+  · exact h
+  · exact h.of_eq (mutate_sound0 s f how h.zero) (by simp) (by simp) (by simp) (by simp)
+
+/-- **Every event keeps the invariant** — any op (mutations and corruptions of files included), any
+parameters, any parked message. -/
+theorem step_padInv (s : St) (p : Parked) (kn : Nat → Bool) (op : Op) (h : PadInv s) :
+    PadInv (step s p kn op).1.st := by
+  cases hm : op.isMutate
+  · exact h.adv (step_adv s p kn op hm h.zero)
+  · have h0 : PadInv { s with sto := [], mayStart := [], closedDl := [], mayStartI := false } :=
+      h.of_eq ⟨h.zero.cfg, h.zero.bad⟩ rfl rfl rfl rfl
+    cases op with
+    | mutate f how =>
+      have h1 := handle_mutate_padInv _ p kn f how h0
+      exact h1.adv (step_after_handle s p kn _ h1.zero)
+    | _ => simp [Op.isMutate] at hm
+
+theorem dstep_padInv (sp : St × Parked) (e : Ev) (h : PadInv sp.1) : PadInv (dstep sp e).1 := by
+  unfold dstep
+  exact ((step_padInv sp.1 sp.2 e.known e.op h).adv (reconcile_adv _ _)).adv (reconcileIdl_adv _ _)
+
+theorem drun_padInv (evs : List Ev) (sp : St × Parked) (h : PadInv sp.1) : PadInv (drun sp evs).1 := by
+  induction evs generalizing sp with
+  | nil => exact h
+  | cons e evs ih => exact ih _ (dstep_padInv sp e h)
+
+theorem dstep_cfg (sp : St × Parked) (e : Ev) : (dstep sp e).1.cfg = sp.1.cfg := by
+  unfold dstep; simp
+
+theorem drun_cfg (evs : List Ev) (sp : St × Parked) : (drun sp evs).1.cfg = sp.1.cfg := by
+  induction evs generalizing sp with
+  | nil => rfl
+  | cons e evs ih => exact (ih _).trans (dstep_cfg sp e)
+
+theorem InitLike.padInv {s : St} (h : InitLike s) : PadInv s where
+  zero := ⟨h.cfg, h.bad⟩
+  len := fun b hb => by rw [h.bf] at hb; cases hb
+  nobit := fun i _ => by rw [h.bf]; rfl
+  nobitP := fun i _ => by rw [h.persisted]; rfl
+  nc := fun _ => h.completed
 
 /-- `bad := c.dataSects` (nothing on disk yet), as `initSt` sets it, is well-formed. -/
 theorem badWF_dataSects (s : St) (h : s.bad = s.cfg.dataSects) : BadWF s := by
